@@ -120,7 +120,7 @@ def accept_unsound(res):
         return ("a field follows the CheckSum field and is outside the sum", "D8-fields-after-checksum")
     v = last[3:]
     try:
-        ok = int(v) == sum(r[:i + 1]) % 256
+        ok = int(v.decode("latin-1")) == sum(r[:i + 1]) % 256     # the decoder reads the value as latin-1 TEXT
     except ValueError:
         ok = False
     if not ok:
